@@ -34,6 +34,8 @@ def cases(tier, seed):
             yield {"kind": "basics", "n": n, "t": t, "batch": b, "interleaved": inter, "rep": rnd.choice(["dense", "linop", "kron", "blockdiag"]), "seed": rnd.randrange(10**6)}
     for (n, t), b, inter in itertools.product([(3, 3), (2, 2), (4, 3), (2, 3)], [[], [2]], [True, False]):
         yield {"kind": "basics", "n": n, "t": t, "batch": b, "interleaved": inter, "rep": "blockdiag", "seed": rnd.randrange(10**6)}
+    for (n, t), b, inter, mb in itertools.product([(4, 3), (2, 3), (3, 3)], [[], [2]], [True, False], ["n", "t"]):
+        yield {"kind": "basics", "n": n, "t": t, "batch": b, "interleaved": inter, "rep": rnd.choice(["dense", "linop"]), "mean_bcast": mb, "seed": rnd.randrange(10**6)}
     for (n, t), b in itertools.product(SHAPES, [[], [2], [3, 2]]):
         for crep in ("dense", "diag", "root", "mixed"):
             for td in range(-(len(b) + 1), len(b) + 1):
@@ -120,7 +122,16 @@ def _make(case, g):
     else:
         cov = _spd(g, *b, n * t)
         cov_obj = DenseLinearOperator(cov) if rep == "linop" else cov
-    d = MT(mean, cov_obj, interleaved=case["interleaved"])
+    mb = case.get("mean_bcast")
+    if mb == "n":
+        mean = mean[..., :1, :].expand(*b, n, t).clone()
+        given = mean[..., :1, :]  # documented: the mean may have a singleton point (or task) dimension, broadcast by the constructor
+    elif mb == "t":
+        mean = mean[..., :, :1].expand(*b, n, t).clone()
+        given = mean[..., :, :1]
+    else:
+        given = mean
+    d = MT(given, cov_obj, interleaved=case["interleaved"])
     return d, mean, _canon(cov, n, t, case["interleaved"])
 
 
